@@ -108,6 +108,8 @@ def replay_gen(payload):
             configs.append(("predict", None))
         if payload.get("force"):
             configs = [tuple(payload["force"])]
+        evd = conc.ev(ev)          # ONE caller-owned evidence dict for all engines asked about this case (must come back unchanged)
+        evd0 = dict(evd)
         for kind, order in configs:
             feat = {"engine": kind, "order": str(order) if kind == "ve_heur" else "", "virt": bool(virt), "tie": len(mapset) > 1}
 
@@ -118,7 +120,7 @@ def replay_gen(payload):
                               "observed": obs, "expected": mapset})
             ncalls += 1
             qv = [conc.vn[v] for v in rng.sample(Q, len(Q))]
-            kw = dict(variables=qv, evidence=conc.ev(ev) or None, show_progress=False)
+            kw = dict(variables=qv, evidence=evd or None, show_progress=False)
             if virt:
                 kw["virtual_evidence"] = make_virtual(inst, conc, virt)
             try:
@@ -141,6 +143,9 @@ def replay_gen(payload):
             except Exception as ex:  # noqa
                 fail("raises", repr(ex)[:300])
                 continue
+            if evd != evd0:
+                fail("evidence_argument_changed", {repr(k): repr(v) for k, v in evd.items()})
+                break
             if set(res) != {conc.vn[v] for v in Q}:
                 fail("assigned_variables", [str(k) for k in res])
                 continue
